@@ -166,6 +166,10 @@ def run(ctx):
     ctx.count("long_bucket_histories", nlong)
     ctx.extra["distinct_final_states_random"] = len(states)
     twin_caches(ctx, rng, modes)
+    # a key that comes back, after a bulk removal, with a value of exactly the old one's shape (same bucket name and
+    # byte length): the lookup must return the second writer's entry (workload shared with C11)
+    from . import c11
+    c11.same_shape_rewrites(ctx, rng, modes)
 
 
 def twin_caches(ctx, rng, modes):
